@@ -230,6 +230,7 @@ class Env(object):
         self.eager_reader = False
         self.blocked = {}          # label -> virtual seconds spent blocked there
         self.blocking_in = None    # label of the virtual blocking call the library is in right now
+        self.unbounded_waits = 0   # blocking waits entered without a deadline while nothing was ready
         self.idle_limit = 3
         self.popen_dirty = True
         self.baton = None
@@ -499,6 +500,8 @@ class Env(object):
 
     def _block_until(self, ready, deadline, label):
         guard = 0
+        if deadline is None and not ready():
+            self.unbounded_waits += 1        # the caller went to sleep with nothing but the peer to wake it
         while True:
             guard += 1
             if guard > 10000:
